@@ -199,3 +199,62 @@ func WaitQuiescent(max time.Duration, pkgs ...string) bool {
 		time.Sleep(150 * time.Microsecond)
 	}
 }
+
+// ProvenBlockIgnoringPollers is ProvenBlock for workloads in which harness
+// goroutines keep polling read-only APIs of the code under test: goroutines whose
+// stack contains a harness frame and that are not blocked are ignored (they are the
+// harness's own observers and cannot produce the awaited event); every goroutine
+// that belongs to the code under test alone (no harness frame), and every blocked
+// harness caller, must be identical and blocked in both dumps.
+func ProvenBlockIgnoringPollers(needle string, gap time.Duration, pkgs ...string) (bool, string) {
+	filter := func(gs []Goroutine) map[string]Goroutine {
+		m := map[string]Goroutine{}
+		for _, g := range InRepo(gs, pkgs...) {
+			if strings.Contains(g.Stack, "verifharness/") && !blockedState(g.State) {
+				continue
+			}
+			m[g.ID] = g
+		}
+		return m
+	}
+	ma := filter(Dump())
+	time.Sleep(gap)
+	mb := filter(Dump())
+	found := false
+	var desc []string
+	// blocked harness callers may come and go (pollers caught while blocked briefly): only
+	// goroutines present in both dumps count, and those without harness frames must all be present in both
+	for id, ga := range ma {
+		gb, ok := mb[id]
+		harness := strings.Contains(ga.Stack, "verifharness/")
+		if !ok {
+			if harness {
+				continue
+			}
+			return false, "an in-repo goroutine ended between the dumps: " + id
+		}
+		if ga.Stack != gb.Stack || ga.State != gb.State {
+			if harness {
+				continue
+			}
+			return false, "an in-repo goroutine is still moving: " + id
+		}
+		if !blockedState(ga.State) {
+			return false, "an in-repo goroutine is not blocked: " + id + " [" + ga.State + "]"
+		}
+		if strings.Contains(ga.Stack, needle) {
+			found = true
+		}
+		desc = append(desc, fmt.Sprintf("g%s [%s] %s", id, ga.State, top(ga.Stack)))
+	}
+	for id, gb := range mb {
+		if _, ok := ma[id]; !ok && !strings.Contains(gb.Stack, "verifharness/") {
+			return false, "an in-repo goroutine appeared between the dumps: " + id
+		}
+	}
+	sort.Strings(desc)
+	if !found {
+		return false, "no blocked goroutine on the awaited path " + needle
+	}
+	return true, strings.Join(desc, "; ")
+}
